@@ -282,7 +282,7 @@ class Universe:
     def go_source(self):
         o = ['// Code generated by /verif/scripts/gen.py. DO NOT EDIT.', 'package main', '',
              'import (', '\t"math"', '\t"reflect"', ')', '', 'var _ = math.Float64frombits', '',
-             'type %s int64' % ENUM_NAME, '', 'func ptrOf[X any](v X) *X { return &v }', '']
+             'type %s int64' % ENUM_NAME, 'type EnumI int', '', 'func ptrOf[X any](v X) *X { return &v }', '']
         for s in self.structs:
             o.append('type %s struct {' % s.name)
             for f in s.fields:
